@@ -61,7 +61,7 @@ def main():
     import copy
     Ls = (0.3, 1.7) if tier == "quick" else (0.1, 0.3, 1.0, 1.7, 6.0)
     Ns = (4, 8) if tier == "quick" else (2, 4, 8, 20, 64)
-    pv = (0.05, 0.4) if tier == "quick" else (0.02, 0.05, 0.4, 1.5)
+    pv = (0.05, 0.4, 1.5) if tier == "quick" else (0.02, 0.05, 0.4, 1.5)      # (1.5 with N_norm = 4 N reaches the concave branch of the monotonic function)
     h = 1e-7
     hm = 1e-5
     G = 2
@@ -119,7 +119,7 @@ def main():
                 iN_end = N / N_norm
                 # the extension beyond a wall end (it places the boundary guard cells) continues the function with the same slope: one-sided
                 # differences inside and outside the end, step 1e-7 of the normalised index
-                if method in ("sqrt", "sqrt_free"):
+                if method in ("sqrt", "sqrt_free", "monotonic"):
                     for e, wall, i0 in (("lo", lo_wall, 0.0), ("hi", hi_wall, float(N))):
                         if wall:
                             hh = 1e-7 * N_norm      # (at 1e-5 the curvature of the function itself shows at the 0.4 % level)
